@@ -1,5 +1,8 @@
 use super::optimization_common::{BinaryBindedValue, BindedValue, IndexAccessBindedValue};
-use samlang_ast::mir::{Binary, Function, Statement};
+use samlang_ast::{
+  hir::BinaryOperator,
+  mir::{Binary, Function, Statement},
+};
 use samlang_heap::TempPStrCounter;
 use std::collections::BTreeSet;
 
@@ -37,8 +40,12 @@ fn optimize_stmts(
         set.insert(BindedValue::Not(operand));
         collector.push(Statement::Not { name, operand });
       }
+      // A division is not offered for hoisting: moved in front of the if-else it would trap before the effects
+      // that precede it in the branches.
       Statement::Binary(Binary { name, operator, e1, e2 }) => {
-        set.insert(BindedValue::Binary(BinaryBindedValue { operator, e1, e2 }));
+        if operator != BinaryOperator::DIV && operator != BinaryOperator::MOD {
+          set.insert(BindedValue::Binary(BinaryBindedValue { operator, e1, e2 }));
+        }
         collector.push(Statement::Binary(Binary { name, operator, e1, e2 }));
       }
       Statement::IndexedAccess { name, type_, pointer_expression, index } => {
